@@ -125,6 +125,29 @@ func cmdCheck(args []string) int {
 		}
 		cts = append(cts, c)
 	}
+	// behavioural subtyping: every in-repo implementation of an interface method under contract is
+	// verified directly against the interface contract (zero annotation)
+	for _, k := range sortedKeys(w.ct.Funcs) {
+		c := w.ct.Funcs[k]
+		if !c.InRepo || c.Kind != "iface" || (len(c.Ensures) == 0 && !c.ModSet && !c.Pure) {
+			continue
+		}
+		has := false
+		for _, p := range c.Props {
+			if p == *prop {
+				has = true
+			}
+		}
+		if !has {
+			continue
+		}
+		for _, impl := range w.implementations(c) {
+			if *only != "" && !strings.Contains(impl.Key, *only) {
+				continue
+			}
+			cts = append(cts, impl)
+		}
+	}
 	results := make([]*FuncResult, len(cts))
 	var wg sync.WaitGroup
 	var mu sync.Mutex
